@@ -761,8 +761,6 @@ val with_end : drain_it -> eptr -> drain_it
 
 val drain_next : tcfg -> drain_it -> (elem option * drain_it) m
 
-val drain_hint : drain_it -> z m
-
 val drain_rest : tcfg -> nat -> drain_it -> drain_it m
 
 val window_fuel : drain_it -> nat
@@ -813,6 +811,8 @@ val set_into_pos : nat -> eptr -> unit m
 val drain_next_at : tcfg -> nat -> elem option m
 
 val drain_next_back_at : tcfg -> nat -> elem option m
+
+val drain_hint_at : nat -> z m
 
 val into_next_at : tcfg -> nat -> elem option m
 
